@@ -14,3 +14,6 @@ Proof. reflexivity. Qed.
 Lemma emit_S f e i :
   emit (S f) e i = ltac:(let t := eval cbn [emit] in (emit (S f) e i) in exact t).
 Proof. reflexivity. Qed.
+Lemma abort_up_S f e t :
+  abort_up (S f) e (Some t) = ltac:(let x := eval cbn [abort_up] in (abort_up (S f) e (Some t)) in exact x).
+Proof. reflexivity. Qed.
